@@ -50,7 +50,7 @@ class C15(Check):
     def bounds(self, tier):
         q = tier == 'quick'
         return dict(window3='n = 3..%d, all isolated-NaN patterns, symbolic weights' % (4 if q else 6), catalogue_windows='n = window..window+%d' % (1 if q else 2),
-                    kernel_objects=['GaussianKernel(1)', 'TriangularKernel(2)', 'UniformKernel(1)', 'DiracKernel'], boundary=[False, True], apis=['operate(FILTER) on a feature', 'filter_seq on x, y, z'],
+                    kernel_objects=['GaussianKernel(1)', 'TriangularKernel(2)', 'UniformKernel(1)', 'DiracKernel'], boundary=[False, True], apis=['operate(FILTER) on a feature', 'filter_seq on x', 'filter_seq on x and y'], integer_signals=[[5, 5, 5, 5], [0, 3, 6, 9, 12]],
                     sliding_window='7 kernel classes, symbolic width')
 
     def jobs(self, tier, seed):
@@ -71,6 +71,12 @@ class C15(Check):
                 js.append(dict(kind='filt', n=6 if q else 8, ker=kname, nan=[0] * (6 if q else 8), api='operate', boundary=b))
                 if kname != 'Dirac':     # a NaN under the only non-zero weight of the Dirac window leaves a zero total weight: undefined, outside the claim
                     js.append(dict(kind='filt', n=6 if q else 8, ker=kname, nan=[0, 0, 1] + [0] * ((6 if q else 8) - 3), api='seq' if not b else 'operate', boundary=b))
+        for kname in ('G1', 'T2'):
+            for b in (False, True):
+                js.append(dict(kind='filt', n=6, ker=kname, nan=[0] * 6, api='seqxy', boundary=b))     # filter_seq over two dimensions
+        for sig in ([5, 5, 5, 5], [0, 3, 6, 9, 12]):
+            js.append(dict(kind='filt', n=len(sig), ker='sym3', nan=[0] * len(sig), api='operate', ints=sig))   # integer-typed samples (counts, integer heights)
+            js.append(dict(kind='filt', n=len(sig), ker='w5' if len(sig) >= 5 else 'sym3', nan=[0] * len(sig), api='seq', ints=sig))
         for kc in KCLASSES:
             js.append(dict(kind='window', kc=kc))
         return js
@@ -107,6 +113,8 @@ class C15(Check):
     def _signal(self, eng, inp, job):
         n = job['n']
         out = []
+        if job.get('ints'):
+            return list(job['ints'])
         for i in range(n):
             if job['nan'][i]:
                 out.append(float('nan'))
@@ -125,6 +133,11 @@ class C15(Check):
             return tr, tr.getAnalyticalFeature('out'), tr.getAnalyticalFeature('a')
         fil = sys.modules[FIL]
         tr = mk_track(n, xs=list(sig))
+        if job['api'] == 'seqxy':
+            ys = tr.getY()
+            res = fil.filter_seq(tr, karg, ['x', 'y'])
+            self._second = (ys, res.getY())
+            return res, res.getX(), None
         res = fil.filter_seq(tr, karg, ['x'])
         return res, res.getX(), None
 
@@ -171,9 +184,23 @@ class C15(Check):
                 return
             N = len(w)
             D = N // 2
+            if job['api'] == 'seqxy':
+                # the second filtered dimension (concrete y = 0, 2, 4, ...): same contract, evaluated with plain numbers
+                ys, oy = self._second
+                for i in range(n):
+                    if not bnd and (i < D or i >= n - D):
+                        if oy[i] != ys[i]:
+                            ctx.fail('a boundary value of the second dimension is not returned unchanged')
+                            return
+                        continue
+                    J = [j for j in range(N) if 0 <= i - j + D < n]
+                    want = sum(w[j] * ys[i - j + D] for j in J) / sum(w[j] for j in J)
+                    if abs(oy[i] - want) > 1e-9 * (1 + abs(want)):
+                        ctx.fail('the second filtered dimension is not the renormalised weighted mean (boundary setting lost?)')
+                        return
             for i in range(n):
                 if not bnd and (i < D or i >= n - D):
-                    if out[i] is not sig[i] and not (isnan(out[i]) and isnan(sig[i])):
+                    if out[i] is not sig[i] and not (isnan(out[i]) and isnan(sig[i])) and not (job.get('ints') and out[i] == sig[i]):
                         ctx.fail('a boundary value is not returned unchanged although the kernel does not filter boundaries')
                         return
                     continue
@@ -221,6 +248,16 @@ class C15(Check):
             tr, out, a_after = self._apply(job, list(sig), karg)
             N, D = len(w), len(w) // 2
             desc = 'signal %r, kernel %s %r (boundary filtered: %r) -> %r' % (sig, job['ker'], w, bnd, out)
+            if job['api'] == 'seqxy':
+                ys, oy = self._second
+                for i in range(n):
+                    if not bnd and (i < D or i >= n - D):
+                        want = ys[i]
+                    else:
+                        J = [j for j in range(N) if 0 <= i - j + D < n]
+                        want = sum(w[j] * ys[i - j + D] for j in J) / sum(w[j] for j in J)
+                    if abs(oy[i] - want) > 1e-9 * (1 + abs(want)):
+                        return dict(violation='filter_seq over x and y, kernel %s (boundary filtered: %r): y %r -> %r, index %d should be %r' % (job['ker'], bnd, ys, oy, i, want))
             for i in range(n):
                 if not bnd and (i < D or i >= n - D):
                     if not (out[i] == sig[i] or (isnan(out[i]) and isnan(sig[i]))):
